@@ -1,10 +1,13 @@
 #!/bin/sh
 # For every kept seeded change that its owning check does not detect, re-runs the checks of the other properties recorded
 # in its meta.json (the property that actually owns the behaviour) and records the result there.
+# optional arguments: only these ids
 cd "$(dirname "$0")/.."
 V=$(pwd)
 for d in seeded/*/; do
   id=$(basename $d)
+  [ -f "$d/meta.json" ] || continue
+  if [ $# -gt 0 ]; then case " $* " in *" $id "*) ;; *) continue ;; esac; fi
   others=$(python3 - "$d/meta.json" <<'PY'
 import json, sys
 m = json.load(open(sys.argv[1]))
